@@ -9,7 +9,7 @@ OBLIGATIONS = [o for o in _c08.OBLIGATIONS if o.name in SEL]
 # resize ordering is part of uniqueness 'with concurrent resizes': a grow publishes the size only after populating, a shrink waits a
 # grace period between publishing the smaller size and unlinking the dropped buckets (else an add_unique that still uses a
 # dropped bucket as insertion point links a node nobody can find, and a second add_unique inserts a duplicate)
-OBLIGATIONS += [o for o in _c09.OBLIGATIONS if o.name in ('C09.O3.init_table', 'C09.O3.fini_table', 'C09.O5.init_table_populate_partition', 'C09.O5.remove_table_partition')]
+OBLIGATIONS += [o for o in _c09.OBLIGATIONS if o.name in ('C09.O3.init_table', 'C09.O3.fini_table', 'C09.O5.init_table_populate_partition', 'C09.O5.remove_table_partition', 'C09.O4.partition_helper')]
 META = {
     'level': 'proof', 'bounded_apart': True,
     'trusted_base': LFHT_TRUSTED,
